@@ -63,6 +63,7 @@ package forwarder
 //@ macro fwdAttr(p) = p.Forwarding.Attributes.cachedValue
 //@ func (f *Forwarder) HandlePacket(ctx, packet) (err)
 //@   requires[inv] f != nil && f.router != nil && f.bankKeeper != nil
+//@   requires[inv] routesNonNil(f.router)
 //@   modifies bank, events, fwdcalls, fwd_ctrl, fwd_pkt, out_n, out_kind, out_cctp, out_cctpc, out_hyp, out_send
 //@   ensures[C05] fwdcalls <= old(fwdcalls) + 1
 //@   ensures[C06] fwdcalls > old(fwdcalls) ==> fwd_pkt == packet
